@@ -39,6 +39,15 @@ Input classes added in round 4 (each is a class of the quantifier, not a reprodu
                           end up with four boundary edges: two fans that meet in a point); Loop is
                           judged there by topology, translation covariance and bounding box only
   unreferenced vertices   a vertex row no face uses (what update_faces leaves behind)
+
+Classes added in round 5 (from the seeds of round 4):
+  reads before the repair fix_normals after the caller evaluated a cached property of the re-wound mesh
+                          (body_count, is_convex, volume, face_adjacency, ... one at a time and all of
+                          them), and histories "built well wound, queried, re-wound by assignment / in
+                          place, repaired": what is cached must not steer the repair
+  small units, to_size    subdivide_to_size of the same integer mesh in small units (1e-3, 1e-5, 3e-6) and
+                          with bounds of 0.4e-8 .. 1.3e-8 (around / below tol.merge) on inputs whose
+                          triangles are >= 10 x above tol.zero; the method returns the function's triangles
 """
 
 from __future__ import annotations
@@ -62,7 +71,8 @@ RULE = (
     "subdivide_to_size over bounds and iteration caps; subdivide_loop over 1-2 iterations.  Further "
     "input classes: the hole meshes in small units (x 1e-3, 1e-5, 3e-6), every hole of solids with < 8 "
     "faces, bodies sharing one vertex, meshes punctured by random face subsets (pinched boundary "
-    "vertices), unreferenced vertex rows.  A case is "
+    "vertices), unreferenced vertex rows, fix_normals after reads of cached properties / after a queried mesh "
+    "was re-wound by its caller, subdivide_to_size in small units down to bounds around tol.merge.  A case is "
     "one (operation, options, mesh, subset); distinct = distinct digest of those; non-trivial = the "
     "operation had something to do (some face re-wound / removed / subdivided)."
 )
@@ -268,7 +278,7 @@ CLASS = {
     "frame_torus": "genus1", "l_prism": "nonconvex", "polycube": "nonconvex",
     "multibody_disjoint": "multibody", "nested_cavity": "cavity", "overlapping_shells": "overlapping",
     "open_grid": "open", "disc": "open", "open_hull": "open",
-    "touching_bodies": "touching_bodies", "punctured": "open",
+    "touching_bodies": "touching_bodies", "punctured": "open", "single_triangle": "open",
 }
 
 
@@ -437,6 +447,12 @@ def _viol(run, ctx, sym, what, feat, **obs):
 # ---------------------------------------------------------------------------- fix_normals
 
 
+# cached properties a caller may have evaluated before asking for the repair
+WARM_READS = ("body_count", "is_convex", "is_watertight", "is_winding_consistent", "volume", "is_volume", "euler_number",
+              "face_adjacency", "area", "center_mass", "edges_unique", "vertex_neighbors", "face_adjacency_convex",
+              "triangles_cross", "bounds", "vertex_normals")
+
+
 def flip_class(F, mask, comps):
     n = int(mask.sum())
     if n == 0:
@@ -466,10 +482,43 @@ def op_fix_normals(run, ctx):
     # the sign of a body's volume does not depend on the unit
     scale = float(ctx.opts.get("scale", 1.0))
     feat["scale"] = "unit" if scale == 1.0 else "%g" % scale
-    m = G.to_trimesh(np.asarray(ctx.V, dtype=np.float64) * scale, Fin)
+    # `read_before`: a cached property the caller evaluated on the re-wound mesh before asking for the
+    # repair (what was cached - a body count, a volume, an adjacency - must not steer the repair);
+    # `history` = reads_then_rewound: the mesh was built well wound, queried, re-wound by the caller
+    # (faces assigned / edited in place) and then repaired
+    read_before = ctx.opts.get("read_before")
+    history = ctx.opts.get("history")
+    if read_before:
+        feat["read_before"] = "all" if read_before == "*" else read_before  # ("*": every property of WARM_READS, in that order)
+    if history:
+        feat["history"] = history
+    Vin = np.asarray(ctx.V, dtype=np.float64) * scale
+    if history:
+        m = G.to_trimesh(Vin, ctx.F)
+        for name in WARM_READS:
+            getattr(m, name)
+        if history == "reads_then_faces_assigned":
+            m.faces = Fin.copy()
+        else:
+            idx = np.nonzero(flip)[0]
+            if len(idx):
+                m.faces[idx] = np.asarray(m.faces)[idx][:, ::-1]
+        if not np.array_equal(np.asarray(m.faces), Fin):
+            run.skip("fix_normals: the caller's re-winding did not arrive in mesh.faces (judged elsewhere)")
+            return
+    else:
+        m = G.to_trimesh(Vin, Fin)
     before_V = np.asarray(m.vertices).copy()
     if cached:
         m.face_normals  # noqa: populate the cache so that a stale copy can be seen afterwards
+    if read_before:
+        try:
+            for name in (WARM_READS if read_before == "*" else (read_before,)):
+                getattr(m, name)
+        except Exception as e:  # noqa
+            run.skip("fix_normals: reading %s raised %s (judged elsewhere)" % (read_before, type(e).__name__))
+            return
+        run.state("fix_normals_read_before_x_route", (read_before, route, ctx.mclass))
     try:
         if route == "method":
             m.fix_normals()
@@ -509,6 +558,8 @@ def op_fix_normals(run, ctx):
         # bodies sharing a vertex: the input class and the route are the mechanism (which faces
         # were re-wound, cached normals and the unit do not matter) - one key per route
         kfeat = {"route": route} if ctx.mclass == "touching_bodies" else feat
+        if ctx.mclass == "touching_bodies":
+            kfeat.update({k: feat[k] for k in ("read_before", "history") if k in feat})
         _viol(run, ctx, "negative_body", "a body has non-positive volume after fix_normals", kfeat,
               n_bodies=len(comps), n_bad=len(bad), flips=feat["flips"], normals_cached=feat["normals_cached"], scale=feat["scale"])
         return
@@ -900,7 +951,13 @@ def op_subdivide_to_size(run, ctx):
     max_edge = float(ctx.opts["max_edge"])
     max_iter = int(ctx.opts["max_iter"])
     route = ctx.opts.get("route", "function")
-    E = ctx.Vf[ctx.F[:, [0, 1, 2]]] - ctx.Vf[ctx.F[:, [1, 2, 0]]]
+    # `scale`: the same integer mesh handed over in small units (V * scale, max_edge in those units).
+    # "no edge longer than the bound" holds for every bound: also for bounds around / below tol.merge
+    # (1e-8), where the result's vertices are closer than the distance at which vertices get welded.
+    # The input triangles stay >= 10 x above the documented resolution (cross products >= 1e-12).
+    scale = float(ctx.opts.get("scale", 1.0))
+    Vin = ctx.Vf * scale
+    E = Vin[ctx.F[:, [0, 1, 2]]] - Vin[ctx.F[:, [1, 2, 0]]]
     elen = np.linalg.norm(E, axis=2)
     longest = elen.max(axis=1)
     need_f = np.where(longest > max_edge, np.ceil(np.log2(longest / max_edge)), 0).astype(int)
@@ -911,12 +968,14 @@ def op_subdivide_to_size(run, ctx):
             return
     need = int(need_f.max())
     feat = {"route": route, "cap": "sufficient" if need <= max_iter else "too_small"}
+    if scale != 1.0:
+        feat["units"] = "bound_near_tol_merge" if max_edge < 2e-8 else "small"
     try:
         if route == "method":
-            r, idx = G.to_trimesh(ctx.V, ctx.F).subdivide_to_size(max_edge, max_iter=max_iter, return_index=True)
+            r, idx = G.to_trimesh(Vin, ctx.F).subdivide_to_size(max_edge, max_iter=max_iter, return_index=True)
             NV, NF_ = np.asarray(r.vertices), np.asarray(r.faces)
         else:
-            NV, NF_, idx = remesh.subdivide_to_size(ctx.Vf.copy(), ctx.F.copy(), max_edge, max_iter=max_iter, return_index=True)
+            NV, NF_, idx = remesh.subdivide_to_size(Vin.copy(), ctx.F.copy(), max_edge, max_iter=max_iter, return_index=True)
         raised = None
     except ValueError as e:
         raised = e
@@ -945,11 +1004,19 @@ def op_subdivide_to_size(run, ctx):
         _viol(run, ctx, "edge_too_long", "an edge longer than the bound survives subdivide_to_size", feat,
               longest=float(el.max()), bound=max_edge)
         return
-    scale = 2 ** max(need, 0)
-    Vs = scaled_int(NV, scale)
+    run.state("to_size_units", (feat.get("units", "unit"), route, ctx.mclass))
+    sc2 = 2 ** max(need, 0)
+    if scale == 1.0:
+        Vs = scaled_int(NV, sc2)
+    else:
+        # back to the integer mesh: iterated midpoints of V * scale are dyadic points of V up to rounding
+        X = NV / scale * sc2
+        Vs = np.rint(X)
+        Vs = Vs.astype(np.int64) if np.abs(X - Vs).max() < 1e-6 else None
     if Vs is None:
         _viol(run, ctx, "not_midpoints", "vertices are not iterated edge midpoints", feat)
         return
+    scale_units, scale = scale, sc2
     inside, same = tris_in_tris(Vs[NF_], (ctx.V * scale)[ctx.F][idx])
     if not inside.all():
         _viol(run, ctx, "child_outside_named_face", "a new face does not lie on the original face return_index names", feat,
@@ -960,13 +1027,24 @@ def op_subdivide_to_size(run, ctx):
         return
     fa = face_areas(NV, NF_)
     per = np.bincount(idx, weights=fa, minlength=len(ctx.F))
-    want = face_areas(ctx.Vf, ctx.F)
-    if np.abs(per - want).max() > 1e-10 * max(1.0, want.max()):
+    want = face_areas(Vin, ctx.F)
+    if np.abs(per - want).max() > (1e-10 * max(1.0, want.max()) if scale_units == 1.0 else 1e-9 * want.max()):
         _viol(run, ctx, "area_per_face", "children named for an original face do not add up to its area", feat,
               worst=float(np.abs(per - want).max()))
         return
     if vol6_int(Vs, NF_) != scale**3 * vol6_int(ctx.V, ctx.F):
         _viol(run, ctx, "volume", "signed volume changed under subdivide_to_size", feat)
+        return
+    if route == "method":
+        # the two entry points: the method returns the triangles the function returns
+        try:
+            RV, RF, ridx = remesh.subdivide_to_size(Vin.copy(), ctx.F.copy(), max_edge, max_iter=max_iter, return_index=True)
+        except Exception:  # noqa
+            return  # (the function route is judged by its own cases)
+        RV, RF = np.asarray(RV, dtype=np.float64), np.asarray(RF)
+        if len(RF) != len(NF_) or not np.array_equal(RV[RF], T) or not np.array_equal(np.asarray(ridx), idx):
+            _viol(run, ctx, "method_differs_from_function", "Trimesh.subdivide_to_size does not return the triangles remesh.subdivide_to_size returns",
+                  feat, faces_method=int(len(NF_)), faces_function=int(len(RF)), vertices_method=int(len(NV)), vertices_function=int(len(RV)))
 
 
 # ---------------------------------------------------------------------------- Loop
@@ -1170,6 +1248,20 @@ def workload(run):
         run.note("rewinding_subsets_enumerated_" + tag, "cut short by the budget" if cut else "all %d (this run's shards together)" % (1 << n))
     run.count("rewinding_subsets_enumerated", enumerated)
 
+    # (1b) size-bounded subdivision down to bounds around / below tol.merge
+    fine = 0
+    for rep in range(6 if quick else 10):
+        if run.out_of_time(0.6):
+            break
+        fc = fine_to_size_case(rng, rep)
+        if fc is None:
+            continue
+        ftag, FV, FF, fsc, fbound = fc
+        execute(run, make_case("subdivide_to_size", ftag, FV, FF, max_edge=fbound, max_iter=12,
+                               route=("method", "method", "function")[rep % 3], scale=fsc))
+        fine += 1
+    run.count("to_size_bounds_near_tol_merge", fine)
+
     # (2) everything else on a stream of meshes
     fixed = [("frame_torus",) + G.frame_torus((2, 1, 3)), ("l_prism",) + G.l_prism(), ("octahedron",) + G.octahedron(),
              ("box",) + G.box_int((2, 3, 4)), ("tetra",) + G.tetra(np.random.default_rng(5)),
@@ -1204,6 +1296,33 @@ def workload(run):
             for c in comps:
                 for route in ("method", "function:multibody"):
                     execute(run, make_case("fix_normals", tag, V, F, flip=sorted(c), route=route, cached=True))
+            # whole bodies inside out (winding consistent inside every body: the repair assigns no faces
+            # before it looks at the bodies) after the caller READ a cached property of the re-wound mesh
+            wb = [sorted(c) for c in comps] + [sorted(i for c in comps[1:] for i in c)]
+            for wi, fl in enumerate(wb[: 4 if quick else 8]):
+                for ri in range(len(WARM_READS)):
+                    if (ri + wi + k) % (3 if quick and CLASS[tag] != "touching_bodies" else 1):
+                        continue
+                    route = ("method", "function:multibody", "process:validate")[(ri + wi) % 3]
+                    execute(run, make_case("fix_normals", tag, V, F, flip=fl, route=route, cached=bool((ri + k) % 2),
+                                           read_before=WARM_READS[ri]))
+                execute(run, make_case("fix_normals", tag, V, F, flip=fl, route=("method", "process:validate")[wi % 2], cached=False,
+                                       read_before="*"))
+                execute(run, make_case("fix_normals", tag, V, F, flip=fl, route=("method", "function:multibody")[wi % 2], cached=bool(wi % 2),
+                                       history=("reads_then_faces_assigned", "reads_then_faces_edited_in_place")[(wi + k) % 2]))
+        # reads before the repair of partly re-wound meshes of every class
+        for ri in range(3):
+            name = WARM_READS[(k * 3 + ri) % len(WARM_READS)]
+            fl = subsets[(k + ri) % len(subsets)]
+            if fl:
+                route = ROUTES_FN[(k + ri) % 4]
+                if route == "function:single" and not single:
+                    route = "method"
+                execute(run, make_case("fix_normals", tag, V, F, flip=fl, route=route, cached=bool(ri % 2), read_before=name))
+        fl = subsets[(k + 3) % len(subsets)]
+        if fl:
+            execute(run, make_case("fix_normals", tag, V, F, flip=fl, route=("method", "function:multibody", "process:validate")[k % 3], cached=bool(k % 2),
+                                   history=("reads_then_faces_assigned", "reads_then_faces_edited_in_place")[k % 2]))
         # ---- fill_holes
         if n >= 8:
             plans = []
@@ -1253,6 +1372,11 @@ def workload(run):
             for rep, (frac, cap) in enumerate([(1.7, 10), (0.93, 10), (0.61, 10), (0.78, 10), (0.37, 10), (0.23, 3), (0.23, 1), (0.55, 0)][: (5 if quick else 8)]):
                 execute(run, make_case("subdivide_to_size", tag, V, F, max_edge=L * frac + 0.001 * rep, max_iter=cap,
                                        route=("function", "method")[rep % 2]))
+                if (rep + k) % 3 == 0 and frac < 1:
+                    # the same mesh and the same relative bound in small units
+                    sc = (1e-3, 1e-5, 3e-6)[(rep + k // 3) % 3]
+                    execute(run, make_case("subdivide_to_size", tag, V, F, max_edge=(L * frac + 0.001 * rep) * sc, max_iter=cap,
+                                           route=("method", "function")[(rep + k) % 2], scale=sc))
         # ---- Loop
         if n <= 64 and CLASS[tag] != "overlapping" or n <= 24:
             execute(run, make_case("subdivide_loop", tag, V, F, iterations=1, route="function"))
@@ -1301,6 +1425,50 @@ def workload(run):
                     execute(run, make_case("fill_holes", otag, OV, OF, groups=g, cached=False))
             EL = np.linalg.norm(OV[OF][:, [0, 1, 2]].astype(float) - OV[OF][:, [1, 2, 0]].astype(float), axis=2).max()
             execute(run, make_case("subdivide_to_size", otag, OV, OF, max_edge=float(EL) * 0.41, max_iter=10, route="method"))
+
+
+def fine_to_size_case(rng, rep, max_faces=140000):
+    """
+    A small mesh, a unit and a bound such that the bound lies between 0.4e-8 and 1.3e-8 (around /
+    below tol.merge: the vertices of the result are closer than the welding distance) while every
+    input triangle's cross product is >= 1e-12 (10 x above tol.zero, the documented resolution).
+    Returns (tag, V, F, scale, bound) or None.
+    """
+    for _ in range(40):
+        r = (rep + int(rng.integers(2))) % 4
+        if r == 0:
+            V = np.array([[1, 0, 0], [0, 1, 0], [0, 0, 1]], dtype=np.int64) * int(rng.integers(1, 3)) + rng.integers(-2, 3, size=3)
+            F = np.array([[0, 1, 2]], dtype=np.int64)
+            tag = "single_triangle"
+        elif r == 1:
+            a, b = int(rng.integers(1, 4)), int(rng.integers(1, 4))
+            V = np.array([[0, 0, 0], [a, 0, 0], [0, b, 0]], dtype=np.int64)[:, rng.permutation(3)] + rng.integers(-2, 3, size=3)
+            F = np.array([[0, 1, 2]], dtype=np.int64)
+            tag = "single_triangle"
+        elif r == 2:
+            V, F = lifted_grid(rng, 1, 1)
+            tag = "open_grid"
+        else:
+            V, F = G.tetra(rng, -2, 2)
+            tag = "tetra"
+        V = V.astype(np.int64)
+        cr = np.linalg.norm(np.cross(V[F[:, 1]] - V[F[:, 0]], V[F[:, 2]] - V[F[:, 0]]).astype(float), axis=1)
+        if cr.min() <= 0:
+            continue
+        sc = math.sqrt(float(rng.uniform(1.0e-12, 2.5e-12)) / float(cr.min()))
+        Vf = V.astype(np.float64) * sc
+        el = np.linalg.norm(Vf[F[:, [0, 1, 2]]] - Vf[F[:, [1, 2, 0]]], axis=2)
+        longest = el.max(axis=1)
+        u = float(rng.uniform(1.05, 1.6))
+        n = int(math.ceil(math.log2(float(longest.max()) * u / 1.3e-8)))
+        bound = float(longest.max()) / 2**n * u
+        if rng.integers(2):
+            bound /= 2.0
+        for b in (bound, bound * 2.0):
+            nf = int((4.0 ** np.ceil(np.log2(np.maximum(longest / b, 1.0)))).sum())
+            if nf <= max_faces and 0.4e-8 <= b <= 1.3e-8:
+                return tag, V, F, sc, b
+    return None
 
 
 def diag_taken_plan(rng, F):
